@@ -27,8 +27,13 @@ type Tables struct {
 }
 
 func NewTables() *Tables {
-	return &Tables{Bang: map[string]string{}, Ints: map[string]int64{}, Durs: map[string]int64{},
+	t := &Tables{Bang: map[string]string{}, Ints: map[string]int64{}, Durs: map[string]int64{},
 		Times: map[string]int64{}, QStr: map[string]bool{}, BadJs: map[string]bool{}}
+	// property keys the code writes on its own (the specification builds the same facts)
+	for _, k := range []string{"!disabled", "!parents", "!writeKey", "!readKey", "!enabled"} {
+		t.Bang[k] = k[1:]
+	}
+	return t
 }
 
 // NoteString records the lexical facts about a string (value, key or id).
